@@ -26,6 +26,7 @@ PLAN = {
     "event_dir": None,
     "initfail": None,
     "stage": [0],        # current stage index as seen by the stager-provided adapters (parent side)
+    "draw": "double",    # what the probe transition draws per iteration: "double" | "uint32" (leaves a buffered half word)
 }
 _SEQ = [0]
 _FIRED = [False]
@@ -96,6 +97,15 @@ def dec_param(v):
     return {"t": "fin", "s": int(v - FIN), "c": 0, "n": 0}
 
 
+def draw(rng, kind):
+    """One draw per iteration.  A 32-bit draw leaves the other half of a 64-bit output buffered inside the
+    bit generator (PCG64, SFC64, MT19937: has_uint32 / uinteger; Philox additionally keeps a 4-word buffer), so
+    the stream position is only carried over correctly if the WHOLE generator state is."""
+    if kind == "uint32":
+        return float(rng.integers(0, 2**32, dtype=np.uint32))
+    return float(rng.random())
+
+
 class ProbeTransition(Transition):
     """state.x = [chain, iterations so far, last raw draw, stage-local iteration]"""
 
@@ -120,7 +130,7 @@ class ProbeTransition(Transition):
         if d:
             time.sleep(d)
         _maybe_interrupt("trans", c, s, i)
-        u = float(rng.random())
+        u = draw(rng, PLAN.get("draw", "double"))
         # the state variable is updated IN PLACE and re-assigned (the idiom of the library's own flows and
         # of the correlated momentum refresh): whoever keeps a reference to the array sees it change
         x = state.x
